@@ -19,7 +19,21 @@ use vcore::*;
 
 const DOC: &str = "local t = {}\nfunction t.f(a) return a end\nlocal s = t.f(1)\nprint(s)\n";
 
-pub fn candidates() -> Vec<(String, Msg)> {
+pub fn candidates() -> Vec<(String, Vec<Msg>)> {
+    single_candidates().into_iter().map(|(n, m)| (n, vec![m])).chain(sequence_candidates()).collect()
+}
+
+/// candidates that need more than one message to reach a handler branch
+fn sequence_candidates() -> Vec<(String, Vec<Msg>)> {
+    vec![
+        // didClose of a document that is not on disk takes the remove-from-analysis branch
+        ("didOpen+didClose:n".into(), vec![world::did_open("n.lua", "local n = 1\n"), world::did_close("n.lua")]),
+        // change then close of the preamble document (restore-from-disk branch with a differing text)
+        ("didChange+didClose:a".into(), vec![world::did_change("a.lua", 2, "local t = 2\n"), world::did_close("a.lua")]),
+    ]
+}
+
+fn single_candidates() -> Vec<(String, Msg)> {
     let pos = world::doc_pos("a.lua", 2, 7);
     let doc = world::doc_only("a.lua");
     let range = json!({"start": {"line": 0, "character": 0}, "end": {"line": 3, "character": 0}});
@@ -83,7 +97,7 @@ pub fn candidates() -> Vec<(String, Msg)> {
     v
 }
 
-pub fn base_scenario(name: &str, msgs: &[&(String, Msg)], pull: bool) -> Scenario {
+pub fn base_scenario(name: &str, msgs: &[&(String, Vec<Msg>)], pull: bool) -> Scenario {
     let mut s = Scenario::new(name);
     s.disk = vec![
         ("a.lua".into(), DOC.into()),
@@ -94,8 +108,8 @@ pub fn base_scenario(name: &str, msgs: &[&(String, Msg)], pull: bool) -> Scenari
     s.pull_diagnostics = pull;
     s.emmyrc = json!({"workspace": {"enableReindex": true}});
     s.messages.push(world::did_open("a.lua", DOC));
-    for (_, m) in msgs {
-        s.messages.push(m.clone());
+    for (_, ms) in msgs {
+        s.messages.extend(ms.iter().cloned());
     }
     // the client answers a configuration request with one empty section, or never
     s.client_answers = vec![Some(json!([null])), None];
@@ -378,12 +392,16 @@ fn subsets(n: usize, k: usize) -> Vec<Vec<usize>> {
     out
 }
 
-fn scenario_for(cands: &[(String, Msg)], menu: &[usize], subset: &[usize], pull: bool) -> (Scenario, Vec<String>) {
-    let msgs: Vec<&(String, Msg)> = subset.iter().map(|i| &cands[menu[*i]]).collect();
+fn scenario_for(cands: &[(String, Vec<Msg>)], menu: &[usize], subset: &[usize], pull: bool) -> (Scenario, Vec<String>) {
+    let msgs: Vec<&(String, Vec<Msg>)> = subset.iter().map(|i| &cands[menu[*i]]).collect();
     let name = msgs.iter().map(|(n, _)| n.clone()).collect::<Vec<_>>().join(" ‖ ");
     let scn = base_scenario(&name, &msgs, pull);
     let mut kinds = vec!["didOpen:a(preamble)".to_string()];
-    kinds.extend(msgs.iter().map(|(n, _)| n.clone()));
+    for (n, ms) in &msgs {
+        for _ in ms.iter() {
+            kinds.push(n.clone());
+        }
+    }
     (scn, kinds)
 }
 
@@ -421,8 +439,19 @@ pub fn run(args: &Args) -> ! {
     for (i, (name, _)) in cands.iter().enumerate() {
         let (scn, kinds) = scenario_for(&cands, &all, &[i], false);
         let e = world::run(&scn, &[], &thread_root(args));
-        let prog = lock_program(&e, 1);
-        solo_tasks.push(task_programs(&e, 1));
+        let nmsg = cands[i].1.len();
+        let mut prog = Vec::new();
+        let mut tasks: Vec<(usize, bool, Vec<(String, String, u32)>)> = Vec::new();
+        for mi in 1..=nmsg {
+            prog.extend(lock_program(&e, mi));
+            for (t, is_main, ops) in task_programs(&e, mi) {
+                match tasks.iter_mut().find(|x| x.0 == t) {
+                    Some(x) => x.2.extend(ops),
+                    None => tasks.push((t, is_main, ops)),
+                }
+            }
+        }
+        solo_tasks.push(tasks);
         monitor_exec(&e, &kinds, &mut mon.lock().unwrap());
         // joins the menu: holds two locks at once somewhere (can be part of a circular wait), or
         // write-locks an RwLock (a queued writer blocks later readers under fair queueing)
